@@ -631,7 +631,7 @@ func runC18(c *core.Ctx) {
 	c18Sequential(c)
 	c18FreshSection(c, c.N(2400, 60000))
 	// the same concurrent workload without the race detector: results only, more volume
-	reps := c.N(2, 12)
+	reps := c.N(1, 12)
 	c.Section("concurrent-plain", uint64(len(c18Configs))*reps, func(cs *core.Case) {
 		c.WatchdogOff(true)
 		defer c.WatchdogOff(false)
